@@ -8,46 +8,46 @@ props = [json.loads(l) for l in open(os.path.join(VERIF, "properties.jsonl"))]
 
 TECH = "static analysis over rustc MIR (custom rustc_private driver + python rules)"
 CLAIMS = {
-    "C05": ("provenance of every allocation size in the reading set (CONST|LEN|LIMIT|guard value, parameters checked at callers), guard polarity on the MIR comparison operator, declared-count provenance, overflow asserts on input-derived operands, closed panic-site inventory",
+    "C05": ("provenance of every allocation size in the reading set (CONST|LEN|LIMIT|guard value, parameters checked at callers), guard polarity on the MIR comparison operator, declared-count provenance, overflow asserts on input-derived operands, closed panic-site inventory; the container iterators stop after the first error (imported latch instances)",
             "static analysis: backward provenance slicing + call-graph closure + panic-site inventory over MIR"),
     "C06": ("the container block buffer holds exactly the declared block (fill_buf resizes on every path before read_exact of the whole buffer); dominance query: no Ok constructed on the Err edge of any read result in the reading set (both decoders, readers); for each of the 31 schema shapes the decoder builds only the Value variant validation accepts for it; enum and union indices are range-checked before a value is built",
             "static analysis: dominance/edge-region query + variant-partitioned path summaries over MIR"),
-    "C13": ("no partial Write::write on caller sinks, no dropped byte counts, no discarded sink results, no explicit panic in Writer::drop - on every function of the crate",
+    "C13": ("no partial Write::write on caller sinks, no dropped byte counts, no discarded sink results, no explicit panic in Writer::drop - on every function of the crate; the error of a sink write is never absorbed (Err edge of every sink-carrying result only returns an error); a sub-serializer's initial byte count is a byte count",
             "static analysis: resolved-callee query + taint over MIR"),
     "C14": ("marker gate, read order, header magic gate, error latch, clean-end-only-on-first-byte in the container reader, as dominance/edge-region facts",
             "static analysis: dominance / must-pass-through over MIR CFG"),
 }
 CLAIMS["C19"] = ("type-level facts for every static of both crates (no static mut, settings are immutable OnceLock, other interior-mutable statics classified), who-may-access sets, single default installer, accessor return-value dataflow, DEFAULT-constant rule on internal limit reads, guard polarity",
                  "static analysis: compiler type facts + who-may-access + dataflow over MIR")
-CLAIMS["C03"] = ("pairing/ordering facts on Writer and Block: rollback of the pending buffer on a failed append, count-once after successful encode, flush order (compress, count, size, payload, marker, clear/reset), header-once, Drop/into_inner flush, reader bookkeeping after successful decode, extend = append-per-item + flush",
+CLAIMS["C03"] = ("pairing/ordering facts on Writer and Block: rollback of the pending buffer on a failed append, count-once after successful encode, flush order (compress, count, size, payload, marker, clear/reset), header-once, Drop/into_inner flush, reader bookkeeping after successful decode, extend = append-per-item + flush; buffer and pending count are reset together",
                  "static analysis: dominance / post-dominance / edge-region pairing rules over MIR")
 CLAIMS["C18"] = ("header constants and fingerprint byte order in the header builder, reader header gate (read_exact of expected length, whole-vector compare, mismatch edge is Err, decode dominated by the Ok edge), writer buffer save/truncate pairing by post-dominance, validate-before-first-sink-write in the typed writers",
                  "static analysis: aggregate/constant inspection + dominance / post-dominance rules over MIR")
 CLAIMS["C04"] = ("magic bytes (writer constant = reader constant = 4F 62 6A 01), header order magic/metadata map<bytes>/marker on both sides, agreement of the reserved metadata key sets between writer, reader and add_user_metadata's guard, absent avro.codec = Null, block order count/size/payload/marker on both sides with both numbers encoded as long, codec-name tables as inverse bijections over the specification's names",
                  "static analysis: constant evaluation + dominance ordering over MIR, writer/reader/spec-table cross-check")
-CLAIMS["C12"] = ("the canonical form's attribute table (kept set and order vs the specification's STRIP/ORDER lists, unknown attributes stripped, sort by table position, PRIMITIVES decision counting kept attributes), fingerprint::<D> = D(canonical_form()) with no other input, Rabin framing (EMPTY seed value, Default/Reset, little-endian output, per-byte table fold), no hash-order iteration in the canonical-form call-graph slice",
+CLAIMS["C12"] = ("the canonical form's attribute table (kept set and order vs the specification's STRIP/ORDER lists, unknown attributes stripped, sort by table position, PRIMITIVES decision counting kept attributes), fingerprint::<D> = D(canonical_form()) with no other input, Rabin framing (EMPTY seed value, Default/Reset, little-endian output, per-byte table fold), no hash-order iteration in the canonical-form call-graph slice; no Debug formatting in the canonical-form functions",
                  "static analysis: constant-table evaluation + per-literal edge-region classification + call/dataflow shape over MIR")
-CLAIMS["C20"] = ("parse_list's output is filled in a loop over input_order (no map iteration), duplicate full names among the inputs are rejected on the Some edge of the input-table insert in both entry points, every insert into the parser's definition table is checked (previous value tested or guarded by contains_key on the same key), closed and re-verified inventory of hash-order iterations in the parser's call-graph slice",
+CLAIMS["C20"] = ("parse_list's output is filled in a loop over input_order (no map iteration), duplicate full names among the inputs are rejected on the Some edge of the input-table insert in both entry points, every insert into the parser's definition table is checked (previous value tested or guarded by contains_key on the same key), closed and re-verified inventory of hash-order iterations in the parser's call-graph slice; an input parsed on demand is answered with a reference for every named shape; names qualified whichever input is parsed first (imported); order-independent referability (3 known findings)",
                  "static analysis: loop/def-use shape + Option-edge regions + insert discipline + hash-iteration inventory over MIR")
-CLAIMS["C11"] = ("gate rules on every acceptance path of the parser (Name, namespace, field name, field default, enum symbols / duplicates / default, duplicate record fields, union branch rules, fixed size, unresolved references: the construction is dominated by the Ok edge of its check and the failure edge is Err-only), who-may-construct sets for Name and UnionSchema, imported definition-table insert discipline (unique full names), closed panic-site inventory over the parse and post-parse call-graph slice",
+CLAIMS["C11"] = ("gate rules on every acceptance path of the parser (Name, namespace, field name, field default, enum symbols / duplicates / default, duplicate record fields, union branch rules, fixed size, unresolved references: the construction is dominated by the Ok edge of its check and the failure edge is Err-only), who-may-construct sets for Name and UnionSchema, imported definition-table insert discipline (unique full names), closed panic-site inventory over the parse and post-parse call-graph slice; namespace provenance of every nested parse and of every name built from schema text; no silent filtering of structural JSON arrays; union builder index/list pairing; base kind per shape equals the specification's underlying type; default validators use the grammar's ASCII regular expressions; resolve_names registers exactly the named shapes",
                  "static analysis: dominance gates + who-may-construct + panic-site inventory over MIR")
-CLAIMS["C02"] = ("per-shape wire-token sequences of decode_internal and encode_internal (zig-zag class, raw lengths, byte order of float/u32/big-integer conversions, uuid text/binary form, block headers, recursion, loop depth; one sequence per success path) equal the hand-transcribed specification table for all 31 schema shapes; both block-header readers read the byte size exactly on the negative-count edge, negate with a checked operation and end on 0; the buffered and direct serde block writers emit negative count + byte size + payload and the 0 terminator; big-decimal framing and the duration byte layout mirror each other; serde block writer flushes a block only on an item boundary (no write_block reachable before the item is counted); serde UnionSerializer writes the index of a branch kind only together with that kind's wire form (path-sensitive tag propagation, 12 pairings)",
+CLAIMS["C02"] = ("per-shape wire-token sequences of decode_internal and encode_internal (zig-zag class, raw lengths, byte order of float/u32/big-integer conversions, uuid text/binary form, block headers, recursion, loop depth; one sequence per success path) equal the hand-transcribed specification table for all 31 schema shapes; both block-header readers read the byte size exactly on the negative-count edge, negate with a checked operation and end on 0; the buffered and direct serde block writers emit negative count + byte size + payload and the 0 terminator; big-decimal framing and the duration byte layout mirror each other; serde block writer flushes a block only on an item boundary (no write_block reachable before the item is counted); serde UnionSerializer writes the index of a branch kind only together with that kind's wire form (path-sensitive tag propagation, 12 pairings); the encoders write whole buffers (imported partial-write instances)",
                  "static analysis: variant-partitioned path summaries over MIR reduced to a token alphabet of resolved callees, compared with a specification table")
-CLAIMS["C01"] = ("encoder/decoder agreement per schema shape: stream tokens (zig-zag class, raw moves and static lengths, recursion, loop depth) and conversion tokens (byte order, text/binary form) of encode_internal(V(S),S) vs decode_internal(S) on every success path, for all 31 shapes; totality of both; no read-ahead adapter on a caller-supplied reader; validation borrows the value immutably and Value is Freeze; a failed trial encoding into a reused scratch buffer is cleared on the failure edge before the buffer is used again",
+CLAIMS["C01"] = ("encoder/decoder agreement per schema shape: stream tokens (zig-zag class, raw moves and static lengths, recursion, loop depth) and conversion tokens (byte order, text/binary form) of encode_internal(V(S),S) vs decode_internal(S) on every success path, for all 31 shapes; totality of both; no read-ahead adapter on a caller-supplied reader; validation borrows the value immutably and Value is Freeze; a failed trial encoding into a reused scratch buffer is cleared on the failure edge before the buffer is used again; reads on the caller's reader are exact and partial reads retried; closed inventory of tests on decoded scalars; serde datum writer framing (imported)",
                  "static analysis: variant-partitioned path summaries of encoder vs decoder over MIR, adapter lint, compiler type facts")
-CLAIMS["C07"] = ("for every (Value variant, schema shape) pair with an accepting path in validate_internal (98 today) the encoder has a success path whose stream tokens are the decoder's for that shape (or a listed, re-checked special form); validate dominates encode and the first sink write in every validating writer and the reject edge reaches neither; the encoder bounds enum indices by the schema; failed trial encodings leave no bytes; reusable writer buffers are rolled back on every exit (imported C03.R1, C18.R3 instances)",
+CLAIMS["C07"] = ("for every (Value variant, schema shape) pair with an accepting path in validate_internal (98 today) the encoder has a success path whose stream tokens are the decoder's for that shape (or a listed, re-checked special form); validate dominates encode and the first sink write in every validating writer and the reject edge reaches neither; the encoder bounds enum indices by the schema; failed trial encodings leave no bytes; reusable writer buffers are rolled back on every exit (imported C03.R1, C18.R3 instances); value-side and schema-side base kinds of union branches agree; pending blocks flushed on the object count and reset (imported)",
                  "static analysis: acceptance relation x encoder/decoder wire tables (variant-partitioned path summaries) + dominance rules over MIR")
-CLAIMS["C08"] = ("the resolver's acceptance table (per reader schema shape, which writer-side Value variants Value::resolve_internal can turn into it: 600+ cells) equals the specification's promotion table - every listed promotion has a success path and nothing else resolves; every reader shape dispatches to a resolver; record resolution looks the value up by reader name, then reader aliases, then default, else error, in reader field order; enum resolution uses the reader's symbols and the reader enum's default; record resolution consults the default only after the alias lookup (cut-reachability with Option propagation); the container reader's skip-resolution shortcut rests on a structural equality that answers false for all 849 pairs of different shapes and guards every zip with a length comparison",
+CLAIMS["C08"] = ("the resolver's acceptance table (per reader schema shape, which writer-side Value variants Value::resolve_internal can turn into it: 600+ cells) equals the specification's promotion table - every listed promotion has a success path and nothing else resolves; every reader shape dispatches to a resolver; record resolution looks the value up by reader name, then reader aliases, then default, else error, in reader field order; enum resolution uses the reader's symbols and the reader enum's default; record resolution consults the default only after the alias lookup (cut-reachability with Option propagation); the container reader's skip-resolution shortcut rests on a structural equality that answers false for all 849 pairs of different shapes and guards every zip with a length comparison; resolver result validates and re-resolves to the same variant per non-composite shape; arrays and maps resolve every item; no lossy conversion on the value path",
                  "static analysis: variant-partitioned path summaries of the resolver over MIR vs a specification table + call/def-use shape rules")
-CLAIMS["C09"] = ("the compatibility checker's verdict table over all schema shape pairs (which of 890 pairs answer Full on every path) cross-checked with the resolver's acceptance table and the decoder's value table: a Full verdict requires an error-free resolver cell; lattice (Full only from Full & Full); mutual_read evaluates both directions unconditionally; the specification's safe steps (numeric promotions, string/bytes, self-compatibility of unnamed shapes, defaulted reader fields, enum defaults, reader name then alias against writer names) are accepted; memo written only from the inner result keyed by both schemas",
+CLAIMS["C09"] = ("the compatibility checker's verdict table over all schema shape pairs (which of 890 pairs answer Full on every path) cross-checked with the resolver's acceptance table and the decoder's value table: a Full verdict requires an error-free resolver cell; lattice (Full only from Full & Full); mutual_read evaluates both directions unconditionally; the specification's safe steps (numeric promotions, string/bytes, self-compatibility of unnamed shapes, defaulted reader fields, enum defaults, reader name then alias against writer names) are accepted; memo written only from the inner result keyed by both schemas; reader-side provenance of the enum default and symbol list; the resolver matches record fields in the checker's order (imported)",
                  "static analysis: variant-partitioned path summaries of checker x resolver x decoder over MIR + shape rules")
-CLAIMS["C10"] = ("serializer/parser agreement per node kind: every key written explicitly is structural for the parser (or withheld from the fixed's attribute loop by a re-verified skip list) and every structural key is written; the logicalType literal and base type written for each of the 16 logical shapes are the ones on which the parser builds that shape; namespace is written wherever name is; references are written as full names; the 8 primitive names map back to the same variant",
+CLAIMS["C10"] = ("serializer/parser agreement per node kind: every key written explicitly is structural for the parser (or withheld from the fixed's attribute loop by a re-verified skip list) and every structural key is written; the logicalType literal and base type written for each of the 16 logical shapes are the ones on which the parser builds that shape; namespace is written wherever name is; references are written as full names; the 8 primitive names map back to the same variant; attribute loops walk the attribute map itself and constant skip lists are subsets of the explicitly written keys",
                  "static analysis: literal/key tables of the serializers (variant-partitioned) vs the parser's structural-key sets and match arms over MIR")
-CLAIMS["C15"] = ("per Codec variant the compress and decompress arms call the dual library entry points of the stream format the specification names (raw deflate, raw snappy blocks, bzip2, xz, zstd; no zlib wrapper, no framed snappy); snappy trailer = big-endian CRC-32 of the uncompressed bytes, verified against the decoded bytes with a mismatch edge that is an error; every decompress arm bounds its output by the allocation limit; the compression level written to the header is the one used to compress and the one the reader rebuilds; results replace the caller's buffer",
+CLAIMS["C15"] = ("per Codec variant the compress and decompress arms call the dual library entry points of the stream format the specification names (raw deflate, raw snappy blocks, bzip2, xz, zstd; no zlib wrapper, no framed snappy); snappy trailer = big-endian CRC-32 of the uncompressed bytes, verified against the decoded bytes with a mismatch edge that is an error; every decompress arm bounds its output by the allocation limit; the compression level written to the header is the one used to compress and the one the reader rebuilds; results replace the caller's buffer; the output bound is the configured limit itself",
                  "static analysis: variant-partitioned call inventory vs a pairing table + def-use/edge rules over MIR")
-CLAIMS["C16"] = ("for every scalar serde data-model method and schema shape (146 cells today): the stream tokens SchemaAwareSerializer writes and SchemaAwareDeserializer reads are those the generic decoder reads for that shape, and both sides accept the same shapes; under unions the branch index comes first; imported byte-count (C13) and block-framing (C02) obligations of the serde writers/readers; RecordSerializer writes in schema order (compare position, cache early fields, flush all consecutive cached fields in a loop, fill defaults in a loop)",
+CLAIMS["C16"] = ("for every scalar serde data-model method and schema shape (146 cells today): the stream tokens SchemaAwareSerializer writes and SchemaAwareDeserializer reads are those the generic decoder reads for that shape, and both sides accept the same shapes; under unions the branch index comes first; imported byte-count (C13) and block-framing (C02) obligations of the serde writers/readers; RecordSerializer writes in schema order (compare position, cache early fields, flush all consecutive cached fields in a loop, fill defaults in a loop); composite methods accept the same shapes on both sides; schema-less to_value / from_value scalar tables agree with resolver, decoder and schema-aware serializer",
                  "static analysis: variant-partitioned path summaries keyed on the self.schema field over MIR, three-way table comparison + loop/def-use shape rules")
-CLAIMS["C17"] = ("translation validation over a generated corpus (86 types quick / 266 thorough: every rename_all rule x tricky identifiers, renames, skips, defaults, aliases, namespaces, nesting, recursion, repeated named types, unit enums) compiled against the current tree and never run: the names, order and field types in the AvroSchema derive's expansion equal those in serde's expansion of the same type; every derived named type answers with a reference when already seen and registers its name before building nested schemas; the corpus compiles",
+CLAIMS["C17"] = ("translation validation over a generated corpus (86 types quick / 266 thorough: every rename_all rule x tricky identifiers, renames, skips, defaults, aliases, namespaces, nesting, recursion, repeated named types, unit enums) compiled against the current tree and never run: the names, order and field types in the AvroSchema derive's expansion equal those in serde's expansion of the same type; every derived named type answers with a reference when already seen and registers its name before building nested schemas; the corpus compiles; shape comparison covers flatten, transparent, tuple/newtype/generic structs, enums with data (union of records), bare unions; every named definition in an expansion is guarded; wrapper impls pass on defaults only with the schema; union builder pairing and schema walks of the derive support",
                  "static analysis of generated programs: MIR of the derive expansions vs serde's expansions (cross-derive agreement)")
 NA_DEFAULT = "check under construction in this round (see DESIGN.md); not yet claimed"
 
